@@ -237,6 +237,54 @@ type TaggedID struct {
 	X int `json:"ID"`
 }
 
+// tags at different embedding depths: only the shallowest depth counts (the tagged V of TagShallow wins over
+// the untagged V of Untagged at the same depth; the tagged V two levels down in TagDeepOuter is irrelevant)
+type EmbedTagDepths struct {
+	TagShallow
+	Untagged
+	TagDeepOuter
+}
+
+type TagShallow struct {
+	V int `json:"V"`
+}
+
+type Untagged struct{ V int }
+
+type TagDeepOuter struct{ TagDeepInner }
+
+type TagDeepInner struct {
+	V int `json:"V"`
+	W int
+}
+
+// field names and tags beyond ASCII: keys match under Unicode simple case folding
+type NonASCIIKeys struct {
+	Café    int
+	Straße  int `json:"straße"`
+	K       int `json:"KELVIN"`
+	S       int `json:"s"`
+	Σίσυφος int
+}
+
+// two direct fields with the same tag name: encoding/json drops both
+type DupTagDirect struct {
+	A int `json:"x"`
+	B int `json:"x"`
+	C int
+}
+
+// two tagged fields with the same name at the same embedded depth: both dropped; a deeper one does not resurface
+type DupTagEmbedded struct {
+	TagShallow
+	TaggedV2
+	TagDeepOuter
+}
+
+type TaggedV2 struct {
+	Y int `json:"V"`
+}
+
 type EmbedDeep struct { // depth 2 vs depth 1
 	Deep
 	Other
